@@ -1,0 +1,41 @@
+//go:build verif
+
+// Contracts for govc (contract-based deductive verification, see /verif/DESIGN.md).
+// Comment-only file: it adds no code and is compiled only with -tags verif.
+
+package controllerv1
+
+//@ iface (github.com/metrico/qryn/writer/service.IInsertServiceV2).Request(req, insertMode)
+//@   modifies nothing
+//@   ensures !isnil(result)
+
+// One attempt: the attempt succeeds exactly if the promise returned by the
+// insert service was completed without error.
+//@ func doPush$1$1 [C01]
+//@   check attempt: result == nil <==> reqErr == nil
+
+// The pusher goroutine completes the caller's promise with the outcome of the
+// retried attempts (retry.Do: assumed to call the attempt function 1..N times
+// and to return nil iff the last call returned nil).
+//@ func doPush$1 [C01]
+//@   requires p.pending == 1
+//@   check completed: p.pending == 0 && p.err == err
+
+//@ func doPush [C01]
+//@   modifies nothing
+//@   ensures fresh(result) && (result.pending == 1 || (result.pending == 0 && result.err == nil && (isnil(req) || isnil(svc))))
+
+// A push is answered with success only after every insert promise created for
+// its body was awaited and reported no error; each parsed chunk hands all five
+// request kinds to doPush.
+//@ func doParse [C01]
+//@   flag checks=-assert
+//@   check all-awaited: result == nil ==> (forall j int :: 0 <= j && j < len(promises) ==> promises[j].err == nil)
+//@   check five-per-chunk: len(promises) % 5 == 0
+//@   loop 1:
+//@     invariant len(promises) % 5 == 0
+//@     modifies allocated
+//@   loop 2:
+//@     invariant forall j int :: 0 <= j && j <= rangeindex && j < len(promises) ==> promises[j].err == nil
+//@     invariant len(promises) % 5 == 0
+//@     modifies nothing
